@@ -93,6 +93,20 @@ def run(tier, argv):
     for m in vlib.read_ndjson(oute):
         if m["what"] in ("position", "panic"):
             bad.append({"part": "enum-parse-position", "what": m["what"], "content": m["bytes"], "pos": m["want_pos"], "want": str(m["want_pos"]), "got": json.dumps(m["got"])[:160], "trailing": False})
+    # (i-regex) the token of a regex type
+    gpr, gr = jsongraph.export_regex_graph(work, rep, "a")
+    outr = work.path("rpos.ndjson")
+    p = vlib.run_harness(hbin, ["c05graph", "-graph", gpr, "-out", outr, "-positions", "-sut", "regex"], timeout=3000)
+    if p.returncode != 0:
+        raise vlib.Infra("c05graph (regex) failed: " + p.stderr.decode()[-2000:])
+    for l in p.stderr.decode().split("\n"):
+        if l.startswith("@@SUMMARY "):
+            sm = json.loads(l[10:])
+            tests += sm["located"]
+            rep.notes["regex_positions"] = {k: sm[k] for k in ("states", "transitions", "tests", "located", "unspecified", "mismatches")}
+    for m in vlib.read_ndjson(outr):
+        if m["what"] in ("position", "panic"):
+            bad.append({"part": "regex-parse-position", "what": m["what"], "content": m["bytes"], "pos": m["want_pos"], "want": str(m["want_pos"]), "got": json.dumps(m["got"])[:160], "trailing": False})
     # (ii) validation errors: position = start of the offending value / key / enclosing object (first violation in document order)
     docs, pcases, nd, nc = semcommon.generate(work, rep, "GenErrPos", "GenErrPosQuick.cfg" if quick else "GenErrPos.cfg", {"Level": "1"}, "pos")
     pm = work.path("posmism.ndjson")
